@@ -25,6 +25,8 @@ MUTANTS = [
      'pub fn construct_var_name(index: impl Into<usize>) -> Ident {\n    format_ident!("__v{}", index.into())\n}',
      'pub fn construct_var_name(index: impl Into<usize>) -> Ident {\n    format_ident!("__v{}", index.into())\n}\nstatic COUNTER: std::sync::atomic::AtomicUsize = std::sync::atomic::AtomicUsize::new(0);', 'C20'),
     ('spawn_threshold_gt2', JO, 'if is_async || !is_spawn || self.active_step_branch_count(step_number) < 2 {', 'if is_async || !is_spawn || self.active_step_branch_count(step_number) < 3 {', 'C08'),
+    ('sync_steps_in_labelled_block', JO, "                    let #results_var = { #steps_stream };\n                    #handle_results\n                }}\n            }",
+     "                    let #results_var = '__join_steps: { #steps_stream };\n                    #handle_results\n                }}\n            }", 'C11'),
     ('panic_swallowed_in_thread_join', JO, 'Some(quote! { #step_result.join().unwrap() })', 'Some(quote! { #step_result.join().unwrap_or_else(|_| ::std::process::abort()) })', None),
 ]
 
